@@ -5,6 +5,7 @@ package checks
 import (
 	"fmt"
 	"os"
+	"runtime/debug"
 
 	"verif/harness/core"
 )
@@ -36,7 +37,7 @@ func Run(prop, tier string) int {
 	func() {
 		defer func() {
 			if p := recover(); p != nil {
-				r.Infra("check panicked: %v", p)
+				r.Infra("check panicked: %v\n%s", p, debug.Stack())
 			}
 		}()
 		fn(r)
